@@ -6196,6 +6196,10 @@ class FlowIRConcrete(object):
         if FlowIR.LabelGlobal not in self._flowir[FlowIR.FieldVariables][platform]:
             self._flowir[FlowIR.FieldVariables][platform][FlowIR.LabelGlobal] = {}
 
+        # VV: A platform section always has both a `global` and a `stages` collection (see inject_default_values)
+        if FlowIR.LabelStages not in self._flowir[FlowIR.FieldVariables][platform]:
+            self._flowir[FlowIR.FieldVariables][platform][FlowIR.LabelStages] = {}
+
         self._flowir[FlowIR.FieldVariables][platform][FlowIR.LabelGlobal][variable] = value
 
         self._cache.clear()
